@@ -23,8 +23,20 @@ from .values import (
     ContinueSig, PathEnd, Infeasible, exc_is_subclass, exc_canon, EXC_PARENTS,
 )
 
-FEAS_TIMEOUT_MS = 1500
+FEAS_TIMEOUT_MS = 400
 MAX_PATHS = 20000
+
+
+_cheap_cache: dict = {}
+
+
+def is_cheap(f) -> bool:
+    """String-free, quantifier-free formula (safe to give to the pruning solver)."""
+    k = f.get_id()
+    if k not in _cheap_cache:
+        t = f.sexpr()
+        _cheap_cache[k] = not any(w in t for w in ("str.", "String", "re.", "seq.", "forall", "exists", "Array"))
+    return _cheap_cache[k]
 
 
 class Obligation:
@@ -40,8 +52,8 @@ class Obligation:
         h = hashlib.sha256()
         h.update(name.encode())
         for p in self.pc:
-            h.update(p.sexpr().encode())
-        h.update(goal.sexpr().encode())
+            h.update(str(p.get_id()).encode())
+        h.update(str(goal.get_id()).encode())
         self.key = h.hexdigest()[:20]
 
 
@@ -81,6 +93,7 @@ class Ctx:
         self.prefix = prefix
         self.decisions: list[tuple[int, int, str]] = []
         self.pc: list = []
+        self.dec: list = []   # branch decisions + solver-cheap facts: what path pruning looks at
         self.heap: dict[int, dict] = {}
         self.next_oid = 1
         self.counters: dict[str, int] = {}
@@ -126,11 +139,16 @@ class Ctx:
         if z3.is_false(f):
             raise Infeasible()
         self.pc.append(f)
+        if is_cheap(f):
+            self.dec.append(f)
 
     def feasible(self) -> bool:
+        """Path pruning.  Looks only at branch decisions and string-free facts (the lemma instances
+        of the string models make full checks slow); pruning less is sound: obligations on a path
+        whose full condition is unsatisfiable are discharged vacuously."""
         if not self.at_frontier():
             return True  # this prefix was found feasible when it was scheduled
-        return self.engine.check_feasible(self.pc)
+        return self.engine.check_feasible(self.dec)
 
     def branch(self, cond, label: str) -> bool:
         c = z3.simplify(cond)
@@ -138,9 +156,20 @@ class Ctx:
             return True
         if z3.is_false(c):
             return False
+        # already decided on this path (syntactically the same condition)?
+        cs = c.get_id()   # hash-consing: structurally equal terms share an id
+        neg = z3.simplify(z3.Not(c)).get_id()
+        for p in self.pc:
+            ps = p.get_id()
+            if ps == cs:
+                return True
+            if ps == neg:
+                return False
         k = self.choose(2, label)
         taken = k == 0
-        self.pc.append(c if taken else z3.simplify(z3.Not(c)))
+        d = c if taken else z3.simplify(z3.Not(c))
+        self.pc.append(d)
+        self.dec.append(d)
         if not self.feasible():
             raise Infeasible()
         return taken
@@ -158,6 +187,8 @@ class Ctx:
             raise PathEnd()
         if not z3.is_true(goal):
             self.pc.append(goal)
+            if is_cheap(goal):
+                self.dec.append(goal)
 
     # ---- heap ------------------------------------------------------------------
     def alloc(self, cls: str, fields: dict | None = None) -> VObj:
@@ -274,6 +305,7 @@ class Engine:
         self.obligations: dict[str, Obligation] = {}
         self.trivial = 0
         self.feas_cache: dict[str, bool] = {}
+        self._alive: list = []
         self.feas_time = 0.0
         self.feas_calls = 0
         self.paths = 0
@@ -298,7 +330,8 @@ class Engine:
         self.assumptions_used.add(ident)
 
     def check_feasible(self, pc) -> bool:
-        key = hashlib.sha256("\n".join(p.sexpr() for p in pc).encode()).hexdigest()
+        key = ",".join(str(p.get_id()) for p in pc)
+        self._alive.append(list(pc))  # keep the terms alive so that ids are never reused
         if key in self.feas_cache:
             return self.feas_cache[key]
         t0 = time.time()
@@ -1382,6 +1415,27 @@ class Engine:
     def e_BoolOp(self, ctx, fr, e):
         # value-producing and/or: fork on truthiness left to right
         last = None
+        if len(e.values) == 2 and self.is_pure_expr(e.values[1]):
+            a = self.eval(ctx, fr, e.values[0])
+            if isinstance(a, self.SCALARS):
+                t = self.truthy_z(ctx, a)
+                if not isinstance(t, bool) and not z3.is_true(z3.simplify(t)) and not z3.is_false(z3.simplify(t)):
+                    b = self.pure_value(ctx, fr, e.values[1])
+                    if b is not None:
+                        m = self.merge_if(ctx, t, a, b) if isinstance(e.op, ast.Or) else self.merge_if(ctx, t, b, a)
+                        if m is not None:
+                            return m
+                    tt = ctx.branch(t, f"boolop@{e.lineno}")
+                    if isinstance(e.op, ast.Or):
+                        return a if tt else self.eval(ctx, fr, e.values[1])
+                    return self.eval(ctx, fr, e.values[1]) if tt else a
+            # fall through to the generic evaluation below, reusing `a`
+            t = self.truthy(ctx, a, f"boolop@{e.lineno}")
+            if isinstance(e.op, ast.And) and not t:
+                return a
+            if isinstance(e.op, ast.Or) and t:
+                return a
+            return self.eval(ctx, fr, e.values[1])
         for i, sub in enumerate(e.values):
             last = self.eval(ctx, fr, sub)
             if i == len(e.values) - 1:
@@ -1406,7 +1460,60 @@ class Engine:
                 return VReal(-v.z)
         raise Unsupported(f"unary op {type(e.op).__name__}")
 
+    SCALARS = (VInt, VReal, VBool, VStr, VBytes)
+
+    def is_pure_expr(self, e) -> bool:
+        """Side-effect free and exception-free by construction: names, constants, plain attribute
+        reads of names, f-strings over those.  Used to merge conditional values into one solver
+        term (If) instead of forking the path."""
+        if isinstance(e, (ast.Name, ast.Constant)):
+            return True
+        if isinstance(e, ast.Attribute):
+            return isinstance(e.value, ast.Name)
+        if isinstance(e, ast.JoinedStr):
+            return all(isinstance(v, ast.Constant) or (isinstance(v, ast.FormattedValue) and v.format_spec is None
+                       and v.conversion == -1 and self.is_pure_expr(v.value)) for v in e.values)
+        return False
+
+    def merge_if(self, ctx, cond, a, b):
+        """If(cond, a, b) for two scalar values of the same kind, else None."""
+        if type(a) is type(b) and isinstance(a, self.SCALARS):
+            return type(a)(z3.If(cond, a.z, b.z))
+        if isinstance(a, (VInt, VReal)) and isinstance(b, (VInt, VReal)):
+            az = z3.ToReal(a.z) if isinstance(a, VInt) else a.z
+            bz = z3.ToReal(b.z) if isinstance(b, VInt) else b.z
+            return VReal(z3.If(cond, az, bz))
+        return None
+
+    def pure_value(self, ctx, fr, e):
+        """Evaluate a pure expression; None when evaluation would fork, raise or is not scalar."""
+        n = len(ctx.decisions)
+        try:
+            v = self.eval(ctx, fr, e)
+        except PyRaise:
+            return None
+        if len(ctx.decisions) != n:
+            return None
+        return v
+
     def e_IfExp(self, ctx, fr, e):
+        if self.is_pure_expr(e.body) and self.is_pure_expr(e.orelse) and not isinstance(e.test, ast.BoolOp):
+            n = len(ctx.decisions)
+            tv = self.eval(ctx, fr, e.test)
+            t = self.truthy_z(ctx, tv)
+            if isinstance(t, bool):
+                return self.eval(ctx, fr, e.body if t else e.orelse)
+            t = z3.simplify(t)
+            if z3.is_true(t) or z3.is_false(t):
+                return self.eval(ctx, fr, e.body if z3.is_true(t) else e.orelse)
+            if len(ctx.decisions) == n:
+                a = self.pure_value(ctx, fr, e.body)
+                b = self.pure_value(ctx, fr, e.orelse) if a is not None else None
+                if a is not None and b is not None and len(ctx.decisions) == n:
+                    m = self.merge_if(ctx, t, a, b)
+                    if m is not None:
+                        return m
+            return self.eval(ctx, fr, e.body) if ctx.branch(t, f"ifexp@{e.lineno}") else self.eval(ctx, fr, e.orelse)
         if self.truth(ctx, fr, e.test, f"ifexp@{e.lineno}"):
             return self.eval(ctx, fr, e.body)
         return self.eval(ctx, fr, e.orelse)
@@ -1665,6 +1772,9 @@ class Engine:
         if isinstance(v, VStr):
             return v
         if isinstance(v, VInt):
+            hook = self.models.get("int-to-str-lemma")
+            if hook:
+                hook(ctx, v.z)
             return VStr(z3.If(v.z >= 0, z3.IntToStr(v.z), z3.Concat(z3.StringVal("-"), z3.IntToStr(-v.z))))
         if isinstance(v, VBool):
             return VStr(z3.If(v.z, z3.StringVal("True"), z3.StringVal("False")))
